@@ -26,6 +26,9 @@ pub struct Config {
     pub missing: Option<(usize, usize)>,
     /// Bitmask of the files that include the library file `flib.circom`.
     pub lib_includers: u32,
+    /// Some(k): file k carries a version pragma newer than the supported one (reported as an
+    /// error; the file and its includes are processed all the same).
+    pub new_pragma: Option<usize>,
 }
 
 impl Config {
@@ -62,7 +65,7 @@ pub fn build(cfg: &Config, dir: &Path) -> Built {
     let mut failing = None;
     let mut texts = Vec::new();
     for i in 0..cfg.n {
-        let mut text = String::from("pragma circom 2.1.4;\n");
+        let mut text = String::from(if cfg.new_pragma == Some(i) { "pragma circom 2.1.9;\n" } else { "pragma circom 2.1.4;\n" });
         let mut line = 2;
         let mut targets = Vec::new();
         for j in 0..cfg.n {
@@ -141,7 +144,10 @@ fn reachable(cfg: &Config) -> BTreeSet<usize> {
 pub fn check(cfg: &Config, dir: &Path, case: &Value) -> Vec<Violation> {
     let mut out = Vec::new();
     let built = build(cfg, dir);
-    let run = run_bin(&BinOpts { args: built.args.clone(), cwd: dir, hash_seed: Some(1), timeout: Duration::from_secs(10), sarif_file: None, mem_limit: None });
+    let sarif_path = dir.join("out.sarif");
+    let mut args = built.args.clone();
+    args.extend(["--sarif-file".to_string(), sarif_path.display().to_string()]);
+    let run = run_bin(&BinOpts { args, cwd: dir, hash_seed: Some(1), timeout: Duration::from_secs(10), sarif_file: Some(sarif_path), mem_limit: None });
     let describe = || format!("args {:?}\n{}", built.args, built.texts.iter().enumerate().map(|(i, t)| format!("--- f{i}.circom\n{t}")).collect::<Vec<_>>().join(""));
     let mut push = |sig: String, what: String, expected: String, observed: String| {
         out.push(Violation { signature: sig, what, case: case.clone(), expected, observed });
@@ -190,6 +196,23 @@ pub fn check(cfg: &Config, dir: &Path, case: &Value) -> Vec<Violation> {
             }
         }
     }
+    // The same holds for the SARIF file.
+    if let Some(sarif) = &run.sarif {
+        for r in crate::sut::bin::sarif_results(sarif).0 {
+            for l in &r.locations {
+                let path = l.0.trim_start_matches("file://").to_string();
+                let canon = std::fs::canonicalize(&path).map(|p| p.display().to_string()).unwrap_or_else(|_| path.clone());
+                if !canon_named.contains(&canon) {
+                    push(
+                        format!("sarif-result-in-included-file/{}", r.rule_id),
+                        format!("a SARIF result is located in `{path}`, which was only included"),
+                        format!("results only in {canon_named:?}"),
+                        format!("{} {}\n{}", r.rule_id, r.message, describe()),
+                    );
+                }
+            }
+        }
+    }
     // Included definitions inform the analysis: one CS0018 per instantiated included template.
     for i in (0..cfg.n).filter(|i| cfg.named >> i & 1 == 1) {
         let mut expected = (0..cfg.n).filter(|j| cfg.edges >> (i * cfg.n + j) & 1 == 1 && cfg.missing != Some((i, *j))).count();
@@ -212,7 +235,17 @@ pub fn check(cfg: &Config, dir: &Path, case: &Value) -> Vec<Violation> {
         }
     }
     // Errors: exactly the unresolvable include, located at the include statement.
-    let errors: Vec<&crate::sut::bin::Diagnostic> = run.diagnostics.iter().filter(|d| d.level() == "error").collect();
+    let version_errors = run.diagnostics.iter().filter(|d| d.level() == "error" && d.message.contains("which is not supported")).count();
+    let expected_version_errors = cfg.new_pragma.map(|k| reachable(cfg).contains(&k) as usize).unwrap_or(0);
+    if cfg.new_pragma.is_some() && version_errors != expected_version_errors {
+        push(
+            "version-error-count".into(),
+            format!("{expected_version_errors} file(s) that are read require a newer compiler version, but {version_errors} such errors are displayed"),
+            format!("{expected_version_errors}"),
+            format!("{}\n{}", crate::infra::truncate(&run.stdout, 400), describe()),
+        );
+    }
+    let errors: Vec<&crate::sut::bin::Diagnostic> = run.diagnostics.iter().filter(|d| d.level() == "error" && !(cfg.new_pragma.is_some() && d.message.contains("which is not supported"))).collect();
     match &built.failing_include {
         Some((i, line, path)) if cfg.named >> i & 1 == 1 => {
             let file = format!("f{i}.circom");
@@ -316,14 +349,20 @@ pub fn configs(tier: Tier) -> Vec<Config> {
                             vec![1, (1u32 << n) - 1]
                         };
                         for lib_includers in masks {
-                            v.push(Config { n, edges, spelling, named, lib, missing: None, lib_includers });
+                            v.push(Config { n, edges, spelling, named, lib, missing: None, lib_includers, new_pragma: None });
                         }
+                    }
+                }
+                // one file with a version pragma that is too new (every file in turn)
+                if edges != 0 && (tier == Tier::Thorough || edges % 2 == 1) {
+                    for k in 0..n {
+                        v.push(Config { n, edges, spelling: 0, named, lib: 3, missing: None, lib_includers: 1, new_pragma: Some(k) });
                     }
                 }
                 // one edge retargeted to a missing file (first edge of the graph)
                 if let Some(bit) = (0..(n * n)).find(|b| edges >> b & 1 == 1) {
                     if tier == Tier::Thorough || edges % 4 == 1 {
-                        v.push(Config { n, edges, spelling: 0, named, lib: 3, missing: Some((bit / n, bit % n)), lib_includers: 1 });
+                        v.push(Config { n, edges, spelling: 0, named, lib: 3, missing: Some((bit / n, bit % n)), lib_includers: 1, new_pragma: None });
                     }
                 }
             }
@@ -334,7 +373,7 @@ pub fn configs(tier: Tier) -> Vec<Config> {
 
 fn case_of(c: &Config) -> Value {
     json!({"kind": "includes", "n": c.n, "edges": c.edges, "spelling": c.spelling, "named": c.named, "lib": c.lib, "lib_includers": c.lib_includers,
-        "missing": c.missing.map(|(i, j)| vec![i, j])})
+        "missing": c.missing.map(|(i, j)| vec![i, j]), "new_pragma": c.new_pragma})
 }
 
 pub fn run(run: &Run) {
@@ -384,6 +423,7 @@ pub fn replay(case: &Value) -> Vec<Violation> {
         lib: case["lib"].as_u64().unwrap_or(3) as usize,
         missing: case["missing"].as_array().map(|a| (a[0].as_u64().unwrap_or(0) as usize, a[1].as_u64().unwrap_or(0) as usize)),
         lib_includers: case["lib_includers"].as_u64().unwrap_or(1) as u32,
+        new_pragma: case["new_pragma"].as_u64().map(|k| k as usize),
     };
     let root = work_dir("c19-replay");
     let out = check(&cfg, &root, case);
